@@ -203,6 +203,12 @@ func (f *fakes) scriptsOf(servers []int, vid uint32) []*repScript {
 	return out
 }
 
+func (f *fakes) snapshot() []event {
+	f.mu.Lock()
+	defer f.mu.Unlock()
+	return append([]event{}, f.log...)
+}
+
 func (f *fakes) takeLog() []event {
 	f.mu.Lock()
 	defer f.mu.Unlock()
